@@ -159,6 +159,23 @@ def uniquify (rule : Rule) (t : Rat) (points : List Pt) : Result :=
     new2old := ordering.map (·.2.1),
     old2new := (List.range points.length).map (fun i => lookup ((assoc r.2 i).getD 0)) }
 
+/-! ### when do the two pre-clustering rules agree? -/
+
+/-- The decisions "open a new norm cluster" of the anchor rule (reference `ra` = first norm of the
+    running cluster) and of the chain rule (reference `rp` = previous norm) coincide at every step
+    of the walk over the sorted squared norms. -/
+def rulesAgree (t : Rat) : Rat → Rat → List Rat → Bool
+  | _, _, [] => true
+  | ra, rp, a :: rest =>
+    (normFar t ra a == normFar t rp a) && rulesAgree t (if normFar t ra a then a else ra) a rest
+
+/-- decidable condition on the input: both rules produce the same norm clusters -/
+def anchorAgrees (t : Rat) (points : List Pt) : Bool :=
+  match (isortBy (fun x y : Item => decide (norm2 x.2 ≤ norm2 y.2)) (enumFrom 0 points)).map
+      (fun x => norm2 x.2) with
+  | [] => true
+  | a :: rest => rulesAgree t a a (a :: rest)
+
 /-! ### specification vocabulary -/
 
 /-- The separation hypothesis of the property: `cl i` is the cluster of point `i`, and two points
